@@ -38,24 +38,39 @@ def _get_leaf_tensors(tensors: Iterable[Tensor], excluded: Iterable[Tensor]) -> 
     if any([tensor.grad_fn is None for tensor in excluded]):
         raise ValueError("All `excluded` tensors should have a `grad_fn`.")
 
+    # A tensor is identified in the graph by the output of its grad_fn that it corresponds to. We
+    # exclude these (node, output index) pairs rather than whole nodes, because a node can have
+    # several outputs (e.g. unbind, split), and only some of them may be excluded.
+    excluded_edges = {(tensor.grad_fn, tensor.output_nr) for tensor in excluded}
     accumulate_grads = _get_descendant_accumulate_grads(
-        roots={tensor.grad_fn for tensor in tensors},
-        excluded_nodes={tensor.grad_fn for tensor in excluded},
+        roots={
+            tensor.grad_fn
+            for tensor in tensors
+            if (tensor.grad_fn, tensor.output_nr) not in excluded_edges
+        },
+        excluded_nodes=set(),
+        excluded_edges=excluded_edges,
     )
     leaves = {g.variable for g in accumulate_grads}
 
     return leaves
 
 
-def _get_descendant_accumulate_grads(roots: set[Node], excluded_nodes: set[Node]) -> set[Node]:
+def _get_descendant_accumulate_grads(
+    roots: set[Node], excluded_nodes: set[Node], excluded_edges: set[tuple[Node, int]] | None = None
+) -> set[Node]:
     """
     Gets the AccumulateGrad descendants of the specified nodes.
 
     :param roots: Root nodes from which the graph traversal should start.
     :param excluded_nodes: Nodes excluded from the graph traversal.
+    :param excluded_edges: Pairs of (node, output index) through which the graph traversal should
+        not go.
     """
 
     excluded_nodes = set(excluded_nodes)  # Re-instantiate set to avoid modifying input
+    if excluded_edges is None:
+        excluded_edges = set()
     result = set()
     nodes_to_traverse = deque(roots - excluded_nodes)
 
@@ -68,8 +83,12 @@ def _get_descendant_accumulate_grads(roots: set[Node], excluded_nodes: set[Node]
         if node.__class__.__name__ == "AccumulateGrad":
             result.add(node)
 
-        for child, _ in node.next_functions:
-            if child is not None and child not in excluded_nodes:
+        for child, output_index in node.next_functions:
+            if (
+                child is not None
+                and child not in excluded_nodes
+                and (child, output_index) not in excluded_edges
+            ):
                 nodes_to_traverse.append(child)  # Append to the right
                 excluded_nodes.add(child)
 
